@@ -180,6 +180,11 @@ def check(run, driver):
         hist_len = int(rng.integers(3, 9))
         results = []
         case = {"information": info, "method": method, "kw": kw, "data": data}
+        # near-copies of the probe data analysed first (a table keyed on ROUNDED numbers would now hold the neighbour's entries;
+        # the fresh process below never saw them)
+        with quiet():
+            for eps in (1e-11, 3e-8):
+                discover_network(data * (1.0 + eps), **kw)
         for step in range(hist_len):
             for a in rng.integers(0, len(actions), size=int(rng.integers(0, 3))):
                 actions[int(a)](rng)
